@@ -48,6 +48,7 @@ structure Ops (α : Type) where
   pow : α → α → α
   isNaN : α → Bool
   isInf : α → Bool       -- C++ `std::isinf(x) == 1`-style test (glibc returns 1 for ±inf in C++)
+  isFinite : α → Bool    -- `std::isfinite`
   ofNat : Nat → α        -- `static_cast<double>(size_t)`
 
 /-- `std::max(a,b)` : `(a < b) ? b : a` -/
@@ -64,6 +65,7 @@ def floatOps : Ops Float where
   pow := Float.pow
   isNaN := Float.isNaN
   isInf := Float.isInf
+  isFinite := Float.isFinite
   ofNat := Nat.toFloat
 
 /-! ### `std::set<std::pair<size_t,size_t>>` as a strictly sorted list -/
